@@ -636,19 +636,31 @@ func (rw *rewriter) recvExprs(f *ast.File) {
 							"(*time.Ticker).Stop": "TickerStop", "(*time.Ticker).Reset": "TickerReset",
 							"(*sync.WaitGroup).Add": "WGAdd", "(*sync.WaitGroup).Done": "WGDone", "(*sync.WaitGroup).Wait": "WGWait"}[fn.FullName()]
 						if cn := map[string]string{"(*sync.Cond).Wait": "CondWaitOn", "(*sync.Cond).Signal": "CondSignal", "(*sync.Cond).Broadcast": "CondBroadcast"}[fn.FullName()]; cn != "" {
-							// only for a plain sync.Cond receiver (a promoted method of an
-							// embedded Cond keeps the older, weaker treatment of Wait)
-							t := rw.info.TypeOf(sel.X)
-							if pt, isPtr := t.(*types.Pointer); isPtr {
-								t = pt.Elem()
-							}
-							if nt, ok := t.(*types.Named); ok && nt.Obj().Pkg() != nil && nt.Obj().Pkg().Path() == "sync" && nt.Obj().Name() == "Cond" {
-								name = cn
-							}
+							name = cn
 						}
 						if name != "" {
-							recv := sel.X
-							if _, isPtr := rw.info.TypeOf(recv).(*types.Pointer); !isPtr {
+							// The receiver, spelled out: a method promoted from an
+							// embedded field (p.Wait() with a sync.Cond embedded in p's
+							// type) is reached through the fields on the selection's path.
+							var recv ast.Expr = sel.X
+							rt := rw.info.TypeOf(sel.X)
+							path := si.Index()
+							for _, ix := range path[:len(path)-1] {
+								if pt, isPtr := rt.Underlying().(*types.Pointer); isPtr {
+									rt = pt.Elem()
+								}
+								st, isStruct := rt.Underlying().(*types.Struct)
+								if !isStruct || ix >= st.NumFields() {
+									name = ""
+									break
+								}
+								recv = &ast.SelectorExpr{X: recv, Sel: ast.NewIdent(st.Field(ix).Name())}
+								rt = st.Field(ix).Type()
+							}
+							if name == "" {
+								return true
+							}
+							if _, isPtr := rt.Underlying().(*types.Pointer); !isPtr {
 								recv = &ast.UnaryExpr{Op: token.AND, X: recv}
 							}
 							call.Fun = simrtFn(name)
@@ -773,6 +785,47 @@ func lockKind(e ast.Expr) int {
 		}
 	}
 	return 0
+}
+
+// replaceContinues replaces every unlabelled continue that binds outside
+// stmts (not inside a nested loop or function literal) by mk().
+func replaceContinues(stmts []ast.Stmt, mk func() ast.Stmt) {
+	var in func(s ast.Stmt)
+	list := func(l []ast.Stmt) {
+		for i, s := range l {
+			if b, ok := s.(*ast.BranchStmt); ok && b.Tok == token.CONTINUE && b.Label == nil {
+				l[i] = mk()
+				continue
+			}
+			in(s)
+		}
+	}
+	in = func(s ast.Stmt) {
+		switch st := s.(type) {
+		case *ast.BlockStmt:
+			list(st.List)
+		case *ast.IfStmt:
+			list(st.Body.List)
+			if st.Else != nil {
+				in(st.Else)
+			}
+		case *ast.SwitchStmt:
+			for _, c := range st.Body.List {
+				list(c.(*ast.CaseClause).Body)
+			}
+		case *ast.TypeSwitchStmt:
+			for _, c := range st.Body.List {
+				list(c.(*ast.CaseClause).Body)
+			}
+		case *ast.SelectStmt:
+			for _, c := range st.Body.List {
+				list(c.(*ast.CommClause).Body)
+			}
+		case *ast.LabeledStmt:
+			in(st.Stmt)
+		}
+	}
+	list(stmts)
 }
 
 func hasUnlabeledContinue(stmts []ast.Stmt) bool {
@@ -923,11 +976,39 @@ func (rw *rewriter) instrument(f *ast.File) int {
 			}
 			ordered := ncomm >= 2 // which of several ready cases proceeds is decided by the tape
 			term := terminating(st)
-			if rw.typed && (!hasDefault || ordered) && !labelled && len(st.Body.List) > 0 && !hasUnlabeledContinue(bodies) {
+			if rw.typed && (!hasDefault || ordered) && !labelled && len(st.Body.List) > 0 {
 				// The select now sits in a loop, but its channel operands and send
 				// values must still be evaluated exactly once (a time.After in a
 				// case would otherwise start a new timer at every retry).
 				var pre []ast.Stmt
+				// A "continue" in a case body would now bind to that loop: it
+				// becomes "flag = true; break <our loop>", and "if flag { continue }"
+				// follows the loop, where it binds to the caller's loop again.
+				selID := strconv.Itoa(n)
+				n++
+				selLabel := ast.NewIdent("simrtSelLoop" + selID)
+				var contFlag *ast.Ident
+				if hasUnlabeledContinue(bodies) {
+					contFlag = ast.NewIdent("simrtCont" + selID)
+					pre = append(pre, &ast.AssignStmt{Lhs: []ast.Expr{contFlag}, Tok: token.DEFINE, Rhs: []ast.Expr{ast.NewIdent("false")}})
+					for _, c := range st.Body.List {
+						replaceContinues(c.(*ast.CommClause).Body, func() ast.Stmt {
+							return &ast.BlockStmt{List: []ast.Stmt{
+								&ast.AssignStmt{Lhs: []ast.Expr{contFlag}, Tok: token.ASSIGN, Rhs: []ast.Expr{ast.NewIdent("true")}},
+								&ast.BranchStmt{Tok: token.BREAK, Label: selLabel},
+							}}
+						})
+					}
+				}
+				after := func(out []ast.Stmt) []ast.Stmt {
+					if contFlag != nil {
+						out = append(out, &ast.IfStmt{Cond: contFlag, Body: &ast.BlockStmt{List: []ast.Stmt{&ast.BranchStmt{Tok: token.CONTINUE}}}})
+					}
+					if term {
+						out = append(out, unreachable())
+					}
+					return out
+				}
 				hoist := func(e ast.Expr) ast.Expr {
 					if id, ok := e.(*ast.Ident); ok && id.Name != "nil" {
 						return e
@@ -963,9 +1044,8 @@ func (rw *rewriter) instrument(f *ast.File) int {
 					//	}
 					//	break simrtSelLoopN
 					// }
-					id := strconv.Itoa(n)
-					n++
-					label := ast.NewIdent("simrtSelLoop" + id)
+					id := selID
+					label := selLabel
 					try, start := ast.NewIdent("simrtTry"+id), ast.NewIdent("simrtStart"+id)
 					nlit := &ast.BasicLit{Kind: token.INT, Value: strconv.Itoa(ncomm)}
 					var none []ast.Stmt
@@ -1001,27 +1081,22 @@ func (rw *rewriter) instrument(f *ast.File) int {
 						Post: &ast.IncDecStmt{X: try, Tok: token.INC},
 						Body: &ast.BlockStmt{List: body},
 					}}
-					out := append(pre, loop)
-					if term {
-						out = append(out, unreachable())
-					}
-					return []ast.Stmt{&ast.BlockStmt{List: out}}
+					return []ast.Stmt{&ast.BlockStmt{List: after(append(pre, loop))}}
 				}
 				again := &ast.CommClause{Body: []ast.Stmt{
 					&ast.IfStmt{Cond: &ast.UnaryExpr{Op: token.NOT, X: &ast.CallExpr{Fun: simrtFn("Blocked")}}, Body: &ast.BlockStmt{List: []ast.Stmt{simrtCall("RealBlock")}}},
 					&ast.BranchStmt{Tok: token.CONTINUE},
 				}}
 				st.Body.List = append(st.Body.List, again)
-				loop := &ast.ForStmt{Body: &ast.BlockStmt{List: []ast.Stmt{st, &ast.BranchStmt{Tok: token.BREAK}}}}
+				var loop ast.Stmt = &ast.ForStmt{Body: &ast.BlockStmt{List: []ast.Stmt{st, &ast.BranchStmt{Tok: token.BREAK}}}}
+				if contFlag != nil {
+					loop = &ast.LabeledStmt{Label: selLabel, Stmt: loop}
+				}
 				if len(pre) == 0 && !term {
 					return []ast.Stmt{loop}
 				}
-				// a block keeps the temporaries local (the statement may be labelled)
-				out := append(pre, loop)
-				if term {
-					out = append(out, unreachable())
-				}
-				return []ast.Stmt{&ast.BlockStmt{List: out}}
+				// a block keeps the temporaries local
+				return []ast.Stmt{&ast.BlockStmt{List: after(append(pre, loop))}}
 			}
 		case *ast.GoStmt:
 			// go f(args) -> simrt.Spawn(func() { f(args) }) with the arguments
